@@ -61,3 +61,35 @@ Definition check_parse (c : parse_case) : list string :=
   | PErr, Some _ => ["mismatch:model-rejects-impl-accepts"]
   | PUnmodelled, _ => ["mismatch:case-outside-the-modelled-envelope"]
   end.
+
+(* ---- repos stage: histories of GetRepositoryIndexes calls ------------------ *)
+From Apko Require Export Model.IndexCache.
+Record repos_case := {
+  rp_signer : list (option string);     (* per repository: whose valid signature its index carries *)
+  rp_locs : list string;                (* symbolic locations *)
+  rp_arch : string;
+  rp_calls : list repo_call }.          (* the calls with what the implementation answered *)
+
+Definition nats_sorted_eqb (a b : list nat) : bool :=
+  forallb (fun x => existsb (Nat.eqb x) b) a && forallb (fun x => existsb (Nat.eqb x) a) b.
+
+Fixpoint outcome_tags (model obs : list repo_call) : list string :=
+  match model, obs with
+  | m :: ms, o :: os =>
+      (match o_err m, o_err o with
+       | true, false => ["mismatch:model-rejects-impl-accepts"]
+       | false, true => ["mismatch:model-accepts-impl-rejects"]
+       | false, false => tag_if (negb (nats_sorted_eqb (o_got m) (o_got o))) "mismatch:indexes-returned"
+       | true, true => []
+       end) ++ outcome_tags ms os
+  | [], [] => []
+  | _, _ => ["mismatch:call-count"]
+  end.
+
+Definition check_repos (c : repos_case) : list string :=
+  let signer := fun r => nth r (rp_signer c) None in
+  let loc := fun r => nth r (rp_locs c) "" in
+  (* every result is stored except those of remote indexes served without an ETag;
+     the outcome does not depend on that (cache_fixed_sound), so the model caches everything *)
+  let model := run_history signer loc (rp_arch c) (fun _ => true) vctx vctx_eqb (ctx_fixed loc (rp_arch c)) [] (rp_calls c) in
+  history_tags signer loc (rp_arch c) (rp_calls c) ++ outcome_tags model (rp_calls c).
